@@ -176,6 +176,10 @@ package ipa
 //@ prelude field group bytes bytesint bytesbridge curve frint bary ipa ipaspec
 //@ let T0 = tr(transcript)
 //@ requires validTr(transcript) && len(proof.L) == len(proof.R)
+//@ fact vL(k int): 0 <= k && k < len(proof.L) ==> validP(proof.L[k].inner)
+//@ fact vR(k int): 0 <= k && k < len(proof.R) ==> validP(proof.R[k].inner)
+//@ at loopbody 0: inst vL(i)
+//@ at loopbody 0: inst vR(i)
 //@ ensures fresh(result) && len(result) == len(proof.L)
 //@ ensures forall k int :: 0 <= k && k < len(proof.L) ==> result[k] == ipa_x(proof.L, proof.R, T0, k)
 //@ ensures tr(transcript) == ipa_pend(proof.L, proof.R, T0, len(proof.L))
@@ -204,7 +208,7 @@ package ipa
 //@ at loopbody 0: inst vR(i)
 //@ ensures @C02 (len(proof.L) != 8 || len(proof.R) != 8) ==> !result0 && err != nil
 //@ ensures @C02 (len(proof.L) == 8 && len(proof.R) == 8) ==> err == nil
-//@ ensures @C02 (len(proof.L) == 8 && len(proof.R) == 8) ==> (result0 <==> ipa_accept(T0, ic.SRS, ic.Q.inner, commitment.inner, evalPoint, result, proof.L, proof.R, proof.A_scalar))
+//@ ensures @C02 (len(proof.L) == 8 && len(proof.R) == 8) ==> (result0 <==> ipa_accept(T0, ic.SRS, gelP(ic.Q.inner), gelP(commitment.inner), evalPoint, result, proof.L, proof.R, proof.A_scalar))
 //@ modifies *(transcript.buff), hcontent(transcript.state)
 // ghost snapshots: transcript and points before the challenge rounds; rows of the vectors the loops read
 //@ at call Add 0: ghost T3 := tr(transcript)
